@@ -46,7 +46,8 @@ COMPONENTS_REAL = ["aiocoap.cli.fileserver.FileServer", "aiocoap.resource", "aio
 COMPONENTS_STUB = ["file system (SimFS: in-memory tree, kernel-like path walking, journal)",
                    "pathlib.Path I/O methods (SimPath)", "tempfile.NamedTemporaryFile (on SimFS)",
                    "UDP socket (SimSocket)", "name resolution", "module random of messagemanager/tokenmanager",
-                   "scripted client (reference codec)", "event loop clock (virtual)"]
+                   "scripted client (reference codec)", "event loop clock (virtual)",
+                   "worker threads (loop.run_in_executor: simulated jobs with seeded latency; unused by the unmodified code)"]
 ASSUMPTIONS = ["SimFS resolves paths like a POSIX kernel without symbolic links (lexical normalisation == physical "
                "resolution); symlink escapes are out of scope",
                "the file server is the only writer of the tree (the module's own documented precondition)",
